@@ -132,6 +132,12 @@ def run(run, replay=None):
             cases.append(rdriver.case(cid, 'header', data, cat))
             run.count(('prefixed-header', pre, len(data)), nontrivial=True)
             cid += 1
+    for tail in (b' ', b'  ', b'\t', b' ,', b', ', b' \r'):       # a header without options followed by blanks / separators
+        for hdr in (b'#.change:', b'#..file:'):
+            data = first + b'\n' + (b'#.change:\n' if hdr == b'#..file:' else b'') + hdr + tail + b'\n' + (b'#..file:\n' if hdr == b'#.change:' else b'') + b'#...meta: length=3\n{}\n'
+            cases.append(rdriver.case(cid, 'header', data, cat))
+            run.count(('bare-header-tail', hdr, tail), nontrivial=True)
+            cid += 1
     run.sample({'accepted_example': (PREFIX + sorted((s for w, s in acc if w == 1), key=len)[-1]).decode('latin-1')})
     run.sample({'accepted_example_value_position': (PREFIX[:-1] + sorted((s for w, s in acc if w == 2), key=len)[-1]).decode('latin-1')})
     run.sample({'rejected_example': (PREFIX + rejects[len(rejects) // 2][1]).decode('latin-1')})
